@@ -17,9 +17,9 @@ import (
 // pools were written with the belief "only a *local* reset leaves a live connection behind; every other reason means the
 // connection is already gone". The belief is an obligation on whoever raises a reset:
 //
-//     for every site that resets a client stream with reason r:
-//         r is in the pool's closing set (the reasons for which OnResetStream raises its close flag)
-//         or the connection is known to be closed at that site.
+//	for every site that resets a client stream with reason r:
+//	    r is in the pool's closing set (the reasons for which OnResetStream raises its close flag)
+//	    or the connection is known to be closed at that site.
 //
 // "Known closed" is one of: the reason is the parameter of the stream connection's Reset method (called by the stream
 // client from the connection's close event only - checked as its own obligation), the reason is read from the
